@@ -74,6 +74,13 @@ def execute(spec, want=("C01",), keep_trace=False):
         frames = {}
         if hs:
             for i, (t_ms, side, dst, kind, size) in enumerate(spec.get("pkts", [])):
+                if kind.startswith("frags:"):
+                    fr = fit_fragments(w, sess, side, dst, kind, rng, i + 1)
+                    if fr is None:
+                        continue
+                    frames[fr] = i + 1
+                    w.tun_inject(side, fr, at=t0 + t_ms * 1000)
+                    continue
                 fr = scen.make_packet(side_ip(sess, side), side_ip(sess, dst), kind, size, rng, i + 1)
                 frames[fr] = i + 1
                 w.tun_inject(side, fr, at=t0 + t_ms * 1000)
@@ -83,8 +90,9 @@ def execute(spec, want=("C01",), keep_trace=False):
         res["stats"]["fates"] = _count([f for _, _, f in relay.log])
         res["stats"]["exits"] = [(e["inst"], e["code"]) for e in w.trace if e["ev"] == "Exit"]
         users = w.users()
-        res["stats"]["users"] = [{k: u[k] for k in ("u", "active", "auth", "enc", "downenc", "fragsize", "lazy", "conn")}
-                                 for u in users if u["active"]]
+        # sessions of the run's own clients first (slots opened by other peers - "occupy" - never log in)
+        res["stats"]["users"] = sorted([{k: u[k] for k in ("u", "active", "auth", "enc", "downenc", "fragsize", "lazy", "conn")}
+                                        for u in users if u["active"]], key=lambda x: (not x["auth"], x["u"]))
         for m in want:
             fn = ABSTRACT.get(m)
             if fn:
@@ -101,6 +109,42 @@ def execute(spec, want=("C01",), keep_trace=False):
         if sess is not None:
             sess.close()
     return res
+
+
+def fit_fragments(w, sess, side, dst, kind, rng, ident):
+    """kind = "frags:<n>:<slack>": an incompressible packet whose compressed image needs exactly n fragments in this
+    session (n * unit - slack bytes; unit = the negotiated downstream fragment size, or what one upstream data query
+    carries with the session's codec, -M limit and domain - build_hostname's arithmetic)."""
+    import zlib
+    import codec as CD
+    _, n, slack = kind.split(":")
+    us = [u for u in w.users() if u["active"] and u["auth"]]
+    if not us or us[0]["conn"] == 0:
+        return None
+    if side == "S":
+        unit = min(us[0]["fragsize"], 4094)
+    else:
+        space = min(sess.cfg.get("maxlen") or 255, 255) - len(sess.domain) - 8
+        enc = CD.NAMES.get(us[0]["enc"], "b32")
+        if enc != "b128":       # Base128 places no dots itself either; every codec here leaves room for them
+            pass
+        space -= space // 57
+        unit = CD.declen(enc, space)
+    target = int(n) * unit - int(slack)
+    if target < 60 or target > 60000:
+        return None
+    size = max(8, target - 60)
+    fr = None
+    for _ in range(40):
+        r2 = random.Random(ident * 7919 + size)
+        fr = scen.make_packet(side_ip(sess, side), side_ip(sess, dst), "rand", size, r2, ident)
+        cl = len(zlib.compress(fr, 9))
+        if cl == target:
+            return fr
+        size += target - cl
+        if size < 8:
+            return None
+    return None
 
 
 def _count(xs):
@@ -380,9 +424,9 @@ def abs_c02(w, sess, frames, t0, hs_len, res):
         if raw:
             must = True
         elif to == "S":
-            must = (clen + upcap - 1) // upcap <= 15
+            must = (clen + upcap - 1) // upcap <= 16
         else:
-            must = (clen + F - 1) // max(F, 1) <= 15
+            must = (clen + F - 1) // max(F, 1) <= 16
         if mode == "faulty" and (t - t0) < post_ms * 1000:
             continue
         acc.setdefault(t, []).append({"e": "Accept", "to": to, "p": p, "t": t // 1000, "must": must})
@@ -457,7 +501,10 @@ def abs_c10(w, sess, frames, t0, hs_len, res):
             q = lastq.get((e["dst"], d[0] << 8 | d[1]))
             key = (len(d) // 64, d[3:8])
             seenkinds[key] = seenkinds.get(key, 0) + 1
-            if seenkinds[key] > 3 or nans >= 60:
+            # the sample is stratified and capped - except that a pair whose question sections differ in any byte is
+            # never left out
+            suspicious = q is not None and D.parse(q).qd[:1] != D.parse(d).qd[:1]
+            if (seenkinds[key] > 3 or nans >= 60) and not suspicious:
                 continue
             nans += 1
             if q is None:
